@@ -5,7 +5,7 @@ use crate::hints;
 use crate::leaf::{rand_d4, D4, P};
 use crate::util::{Ctx, Report};
 use crate::wrap::*;
-use crate::wrapcheck::{random_inners, random_vector, Inject, PubInject};
+use crate::wrapcheck::{near_equal_vector, random_inners, random_vector, Inject, PubInject};
 use plonky2::field::types::Field;
 use plonky2::iop::target::Target;
 use plonky2::plonk::circuit_builder::CircuitBuilder;
@@ -15,7 +15,7 @@ use rayon::prelude::*;
 use serde_json::json;
 use std::panic::{catch_unwind, AssertUnwindSafe};
 use zk_circuits_common::circuit::{C, D, F};
-use zk_circuits_common::gadgets::{enforce_target_less_than_const, is_const_less_than, sort_digests4};
+use zk_circuits_common::gadgets::{bytes_digest_eq, enforce_target_less_than_const, is_const_less_than, sort_digests4};
 
 const M32: u64 = (1 << 32) - 1;
 
@@ -45,6 +45,120 @@ impl LtCircuit {
         }));
         let (data, x) = r.ok()?;
         Some(Self { cso: Cso::new(data).ok()?, x, w, c, enforce })
+    }
+}
+
+/// out = bytes_digest_eq(a, c), PIs = [a0..a3, c0..c3, out]
+pub struct DigestEqCircuit {
+    pub cso: Cso,
+    pub a: [Target; 4],
+    pub c: [Target; 4],
+}
+
+impl DigestEqCircuit {
+    pub fn build() -> Option<Self> {
+        let r = catch_unwind(AssertUnwindSafe(|| {
+            let mut b = CircuitBuilder::<F, D>::new(CircuitConfig::standard_recursion_config());
+            let a: [Target; 4] = std::array::from_fn(|_| b.add_virtual_target());
+            let c: [Target; 4] = std::array::from_fn(|_| b.add_virtual_target());
+            b.register_public_inputs(&a);
+            b.register_public_inputs(&c);
+            let out = bytes_digest_eq(&mut b, a, c);
+            b.register_public_input(out.target);
+            (b.build::<C>(), a, c)
+        }));
+        let (data, a, c) = r.ok()?;
+        Some(Self { cso: Cso::new(data).ok()?, a, c })
+    }
+}
+
+/// digest pairs for the equality gadget: equal, one-limb neighbours at every position (by 1, by a
+/// random amount, by 2^32, against zero), several-limb differences, lossy-fold aliases
+pub fn digest_eq_pairs(rng: &mut impl Rng) -> Vec<(D4, D4)> {
+    let mut v: Vec<(D4, D4)> = vec![];
+    let base = rand_d4(rng);
+    v.push((base, base));
+    v.push(([F::ZERO; 4], [F::ZERO; 4]));
+    v.push((base, rand_d4(rng)));
+    for k in 0..4 {
+        for delta in [F::ONE, f(1 << 32), f(P - 1), f(rng.gen_range(2..P - 1))] {
+            let mut c = base;
+            c[k] += delta;
+            v.push((base, c));
+            v.push((c, base));
+        }
+        let mut z = [F::ZERO; 4];
+        z[k] = f(rng.gen_range(1..P));
+        v.push((z, [F::ZERO; 4]));
+        v.push(([F::ZERO; 4], z));
+        // differs everywhere except limb k
+        let mut c = rand_d4(rng);
+        c[k] = base[k];
+        v.push((base, c));
+    }
+    for (i, j) in [(0usize, 1usize), (0, 3), (1, 2), (2, 3)] {
+        // sum-preserving two-limb difference and a swap
+        let mut c = base;
+        c[i] += F::ONE;
+        c[j] -= F::ONE;
+        v.push((base, c));
+        let mut d = base;
+        d.swap(i, j);
+        if d != base {
+            v.push((base, d));
+        }
+    }
+    v
+}
+
+fn judge_digest_eq(rep: &Report, dc: &DigestEqCircuit, a: &D4, c: &D4, thorough: bool, pairs: usize) {
+    let mut pins: Vec<(Target, F)> = vec![];
+    for i in 0..4 {
+        pins.push((dc.a[i], a[i]));
+        pins.push((dc.c[i], c[i]));
+    }
+    let run = dc.cso.run(&[], &pins, false);
+    let acc = dc.cso.eval(&run).accepted();
+    let pis = dc.cso.public_inputs(&run);
+    rep.eval();
+    rep.nontrivial(&("deq", a.map(u), c.map(u)));
+    let case = || json!({"gadget": "bytes_digest_eq", "a": a.map(u), "c": c.map(u)});
+    let want = (a == c) as u64;
+    if !acc {
+        let (ok, _) = dc.cso.confirm(&run);
+        if !ok {
+            rep.violation("digest-eq / honest witness rejected", "the digest equality gadget has no satisfying honest witness for a pair of canonical digests", case());
+        } else {
+            rep.inconclusive("CSO and real prover/verifier disagree on the digest equality gadget");
+        }
+        return;
+    }
+    if u(pis[8]) != want {
+        rep.violation("digest-eq / wrong output", &format!("bytes_digest_eq outputs {} for digests that are {}", u(pis[8]), if want == 1 { "equal" } else { "different" }), case());
+    }
+    let judge_override = |r: &crate::cso::Run, who: String, set: &[(Target, F)]| {
+        let p = dc.cso.public_inputs(r);
+        let (a2, c2): (Vec<F>, Vec<F>) = (p[0..4].to_vec(), p[4..8].to_vec());
+        let want2 = (a2 == c2) as u64;
+        if u(p[8]) == want2 {
+            rep.count("override_accepted_benign");
+            return;
+        }
+        let (ok, _) = dc.cso.confirm(r);
+        if !ok {
+            rep.inconclusive("CSO accepted an overridden gadget witness that the real verifier rejects");
+            return;
+        }
+        rep.violation(&format!("witness-freedom / digest equality gadget ({who})"),
+            &format!("overriding hints of {who} makes bytes_digest_eq output {} for digests that are {}", u(p[8]), if want2 == 1 { "equal" } else { "different" }),
+            json!({"a": a2.iter().map(|x| u(*x)).collect::<Vec<_>>(), "c": c2.iter().map(|x| u(*x)).collect::<Vec<_>>(),
+                "override": set.iter().map(|(t, v)| json!([format!("{t:?}"), u(*v)])).collect::<Vec<_>>()}));
+    };
+    let on_accept = |r: &crate::cso::Run, gi: usize, set: &[(Target, F)]| judge_override(r, format!("generator {} ({})", gi, dc.cso.gen_ids[gi]), set);
+    hints::sweep(&dc.cso, &[], &pins, 1, 0, thorough, rep, &on_accept);
+    if pairs > 0 {
+        let on_pair = |r: &crate::cso::Run, set: &[(Target, F)]| judge_override(r, "a pair of generators".to_string(), set);
+        hints::sweep_pairs(&dc.cso, &pins, pairs, rep, &on_pair);
     }
 }
 
@@ -344,13 +458,22 @@ pub fn run_c10(ctx: &Ctx) -> i32 {
             }
         };
         let vectors = ctx.tier.pick(3usize, 24);
-        for vi in 0..vectors {
+        // second half: "near-equal" vectors in which every digest comparison sees one-limb neighbours
+        let near = ctx.tier.pick(8usize, 32);
+        for vi in 0..vectors + near {
             if ctx.over_budget() {
                 break;
             }
             let mut rng = ctx.sub_rng(&format!("pv{n}"), vi as u64);
             let inj = [Inject::None, Inject::DupNull, Inject::SumOverflow, Inject::Block, Inject::Fee, Inject::None][vi % 6];
-            let (s, p) = random_vector(&mut rng, n, inj);
+            let is_near = vi >= vectors;
+            let (s, p) = if is_near {
+                let j = vi - vectors;
+                rep.count("private_vectors_near_equal");
+                near_equal_vector(&mut rng, n, j % 4, j % 8 >= 4)
+            } else {
+                random_vector(&mut rng, n, inj)
+            };
             let children: Vec<Vec<F>> = s.iter().map(|x| x.to_pis()).collect();
             let pins = w.pins(&children, &p);
             let honest = w.cso.run(&[], &pins, false);
@@ -358,7 +481,7 @@ pub fn run_c10(ctx: &Ctx) -> i32 {
             let honest_pis = w.cso.public_inputs(&honest);
             let (jc, jp) = w.read_children(&honest);
             rep.count(if honest_acc { "private_vectors_honest_accepted" } else { "private_vectors_honest_rejected" });
-            let stride = ctx.tier.pick(if n >= 3 { 8 } else { 3 }, if n >= 3 { 2 } else { 1 });
+            let stride = if is_near { ctx.tier.pick(if n >= 3 { 2 } else { 1 }, 1) } else { ctx.tier.pick(if n >= 3 { 8 } else { 3 }, if n >= 3 { 2 } else { 1 }) };
             let on_accept = |r: &crate::cso::Run, gi: usize, set: &[(Target, F)]| {
                 let (c2, p2) = w.read_children(r);
                 if c2 != jc || p2 != jp {
@@ -435,6 +558,20 @@ pub fn run_c10(ctx: &Ctx) -> i32 {
                 }
             };
             hints::sweep(&w.cso, &[], &pins, ctx.tier.pick(2, 1), vi, thorough, &rep, &on_accept);
+        }
+    }
+    // gadget: digest equality on equal / one-limb-neighbour / several-limb / alias pairs, every generator overridden
+    match DigestEqCircuit::build() {
+        None => rep.inconclusive("digest equality gadget circuit did not build"),
+        Some(dc) => {
+            rep.add("digest_eq_generators", dc.cso.gen_ids.len() as u64);
+            for round in 0..ctx.tier.pick(1u64, 6) {
+                let mut rng = ctx.sub_rng("gadget-deq", round);
+                for (i, (a, c)) in digest_eq_pairs(&mut rng).iter().enumerate() {
+                    judge_digest_eq(&rep, &dc, a, c, thorough, if thorough || i % 7 == 0 { ctx.tier.pick(300, 3000) } else { 0 });
+                    rep.count("digest_eq_pairs_judged");
+                }
+            }
         }
     }
     // gadgets: less-than at the widths the circuits use (n_log=5 in the leaf; 64 via canonical halves) and sort
